@@ -38,6 +38,12 @@ pub fn construct(c: &Value) -> AnyVec {
         "new" => AnyVec::Int(IntVector::new(us(c, "w")).unwrap()),
         "with_len" => AnyVec::Int(IntVector::with_len(us(c, "n"), us(c, "w"), set_to_u64(&c["v"])).unwrap()),
         "with_capacity" => AnyVec::Int(IntVector::with_capacity(us(c, "n"), us(c, "w")).unwrap()),
+        "from_vec" | "from_iter" => {
+            let vs: Vec<u64> = c["vs"].as_array().unwrap().iter().map(set_to_u64).collect();
+            let iter = c["op"] == json!("from_iter");
+            macro_rules! mk { ($t:ty) => {{ let v: Vec<$t> = vs.iter().map(|x| *x as $t).collect(); if iter { v.into_iter().collect::<IntVector>() } else { IntVector::from(v) } }} }
+            AnyVec::Int(match us(c, "w") { 8 => mk!(u8), 16 => mk!(u16), 32 => mk!(u32), 64 => if vs.len() % 2 == 0 { mk!(u64) } else { mk!(usize) }, w => panic!("TOOL-ERROR: no item type of width {}", w) })
+        },
         "new_raw" => AnyVec::Raw(RawVector::new()),
         "with_len_raw" => AnyVec::Raw(RawVector::with_len(us(c, "n"), c["b"].as_bool().unwrap())),
         "with_capacity_raw" => AnyVec::Raw(RawVector::with_capacity(us(c, "n"))),
@@ -67,6 +73,8 @@ impl AnyVec {
                 "count_ones" => num(AsRef::<RawVector>::as_ref(v).count_ones()),
                 "len" => num(v.len()),
                 "width" => num(v.width()),
+                "is_empty" => boolean(v.is_empty()),
+                "get_or" => { let i = c["i"].as_i64().unwrap(); val(v.get_or(if i < 0 { usize::MAX } else { i as usize }, set_to_u64(&c["v"]))) },
                 _ => panic!("TOOL-ERROR: unknown int vector call {}", op),
             },
             AnyVec::Raw(v) => match op {
